@@ -447,8 +447,18 @@ int fiber_manager_wake_from_mpsc_queue(fiber_manager_t* manager,
       wake_count += 1;
     } else if (count > 0) {
       manager->wake_mpsc_spin_count += 1;
-      fiber_manager_yield(manager);
-      manager = fiber_manager_get();
+      if (manager->current_fiber == manager->maintenance_fiber) {
+        // the maintenance fiber (deferred mutex unlock) is only switched back to
+        // when its thread has nothing else to run. if it yielded here, a fiber
+        // that keeps yielding on this thread would keep it - and with it the
+        // hand-off of the mutex - suspended for ever. the fiber we are waiting
+        // for is running on another kernel thread, between announcing itself
+        // and enqueueing, so it shows up shortly: spin
+        cpu_relax();
+      } else {
+        fiber_manager_yield(manager);
+        manager = fiber_manager_get();
+      }
     }
   } while (wake_count < count);
   return wake_count;
